@@ -538,6 +538,44 @@ def HH():
         return "A[1].Ch[2].z raises %s after Ch.formula was replaced" % type(e).__name__
 
 
+def JJ():
+    """renaming a cells in a base: own overriding cells of subs renamed too; farther definer not uncovered"""
+    out = []
+    m = _reset()
+    A_, B_ = m.new_space("A"), m.new_space("B")
+    A_.new_cells("c2", formula="lambda x: x + 100")
+    B_.new_cells("c2", formula="lambda x: x + 1")
+    C_ = m.new_space("C", bases=[B_, A_])
+    B_.c2.rename("zz1")
+    if "c2" not in C_.cells or C_.c2(0) != 100:
+        out.append("after B.c2.rename: C has %s (expected c2 derived from A and zz1)" % sorted(C_.cells))
+    m = _reset()
+    A1, Ba = m.new_space("A1"), m.new_space("Ba")
+    A1.new_cells("s_", formula="lambda: 1")
+    Ba.new_cells("s_", formula="lambda: 2")
+    X_ = m.new_space("X", bases=[Ba, A1])
+    X_.s_.formula = "lambda: 3"
+    A1.s_.rename("ren")
+    if "s_" not in X_.cells or X_.s_() != 3:
+        out.append("after A1.s_.rename: X has %s (its own s_ must stay)" % sorted(X_.cells))
+    return "; ".join(out) or None
+
+
+def KK():
+    """deleting an override in a base leaves ItemSpaces built from a sub space with the old formula"""
+    m = _reset()
+    P_ = m.new_space("P")
+    P_.new_cells("c5", formula="lambda x: 1")
+    Q_ = m.new_space("Q", bases=P_)
+    Q_.c5.formula = "lambda x: 5"
+    m.new_space("R", bases=[Q_, P_])
+    PB = m.new_space("PB", formula="lambda p: {'base': _model.R}")
+    PB[1].c5(0)
+    del Q_.c5
+    v = PB[1].c5(0)
+    return None if v == 1 else "PB[1].c5(0) == %r after `del Q.c5` (R.c5 derives from P again: 1)" % v
+
+
 # ------------------------------------------------------------------ C15
 def M():
     """export: comprehension following a nested class scope"""
@@ -655,7 +693,7 @@ def R():
     return None
 
 
-ALL = [A, F, G, U, I, J, K, L, EE, FF, T, Z, B, D, E, II, a, b, c, H, W, X, V, Y, AA, BB, CC, DD, GG, HH, M, N, O, P, Q, R]
+ALL = [A, F, G, U, I, J, K, L, EE, FF, T, Z, B, D, E, II, a, b, c, H, W, X, V, Y, AA, BB, CC, DD, GG, HH, JJ, KK, M, N, O, P, Q, R]
 
 
 if __name__ == "__main__":
